@@ -1,4 +1,5 @@
 import Dtr.Props.C09
+import Dtr.Proofs.ParserDenotes
 /-!
 # C12 — malformed programs are rejected, never silently accepted
 
@@ -119,5 +120,39 @@ theorem parseHeader_newline : ∀ (f off line : Nat) (acc : List (String × Nat 
 theorem C12_header_needs_newline (s : Str) (names : List (String × Nat × Nat)) (l o : Nat) (rest : Str)
     (h : parseHeaderAll s = .ok names l o rest) : ∃ pre, s = pre ++ '\n' :: rest :=
   parseHeader_newline _ _ _ [] s names l o rest h
+
+/-- **What is accepted is a phrase of the grammar** (`Spec/Grammar.lean`), and the statements returned are what
+that phrase denotes: the tokens the body parser consumed form lines, each a data row, a `let … ;`, a
+`resetRandom;`, a `declare … ;`, a `repeat(…)` row, or a `loop(…)` / `while(…)` header, its body lines and
+`end loop` / `end while`, every line but the last ended by a line break; expressions are factors joined by
+binary operators, factors are literals, names, calls `name(e, …, e)` of a table function at its arity, unary
+operators and `( e )`; row entries are numbers, `C`/`X`/`Z`, `( e )` and `bits(k, e)` with `k ≤ 64`.  Any text
+that violates the grammar — a missing `;`, `)` or `,`, an unterminated or wrongly terminated block, an unknown
+function — therefore is not accepted. -/
+theorem C12_accepted_in_grammar (hdr : List String) (line : Nat) (atoks : List ATok) (b : List Stmt) (st' : PState)
+    (hok : parseBody hdr line atoks = .ok b st') : ∃ u, atoks = u ++ st'.toks ∧ DTop u b := by
+  unfold parseBody at hok
+  obtain ⟨u, hu, b', hb, hD⟩ := (blockD hdr (parseFuel atoks.length)).block none [] _ _ _ hok
+  simp only [List.nil_append] at hb
+  subst hb
+  exact ⟨u, hu, hD⟩
+
+/-- the same for a nested block: it ends with `end <kind>` -/
+theorem C12_block_in_grammar (hdr : List String) (fuel : Nat) (k : Kind) (st : PState) (b : List Stmt) (st' : PState)
+    (hok : parseBlock hdr fuel (some k) [] st = .ok b st') : ∃ u, st.toks = u ++ st'.toks ∧ DNested k u b := by
+  obtain ⟨u, hu, b', hb, hD⟩ := (blockD hdr fuel).block (some k) [] _ _ _ hok
+  simp only [List.nil_append] at hb
+  subst hb
+  exact ⟨u, hu, hD⟩
+
+/-- a phrase that is a nested block ends in `end <kind>` -/
+theorem DNested.ends : ∀ {k : Kind} {u : List ATok} {b : List Stmt}, DNested k u b →
+    ∃ pre, u = pre ++ [.sym .End, .sym k]
+  | _, _, _, .close k => ⟨[], rfl⟩
+  | _, _, _, .blank k rest b h => by obtain ⟨pre, hp⟩ := h.ends; exact ⟨.sym .Eol :: pre, by rw [hp]; rfl⟩
+  | _, _, _, .stmt k ts s rest b _ h => by
+    obtain ⟨pre, hp⟩ := h.ends; exact ⟨ts ++ .sym .Eol :: pre, by rw [hp]; simp⟩
+  | _, _, _, .decl k ts rest b _ h => by
+    obtain ⟨pre, hp⟩ := h.ends; exact ⟨ts ++ .sym .Eol :: pre, by rw [hp]; simp⟩
 
 end Dtr
